@@ -28,7 +28,7 @@ FINDINGS = {
     "K7": {"props": ["C01"],
            "what": "aligned structure ending in an [EOF] array: the tail padding written by dumps() is read back as "
                    "array elements (or a partial element)"},
-    "K8": {"props": ["C06"],
+    "K8": {"props": [],       # repaired (repair 85); kept for the record, no signature maps to it any more
            "what": "bit-field members of a union ignore their width (union { uint8 a:4; uint8 b:4; } parses 0xa5 as "
                    "a = b = 0xa5)"},
     "K10": {"props": ["C11"],
